@@ -190,7 +190,7 @@ pub fn cfg(with_state: bool, recover: bool) -> GenCfg {
 
 pub fn templates() -> Vec<G> {
     let j = |s: &str| G::Just(s.into());
-    let rep = |item: G, lo: u8, hi: Option<u8>, sink: Sink| G::Rep(Rep { item: b(item), sep: None, leading: false, trailing: false, lo, hi, sink, cfg: false });
+    let rep = |item: G, lo: u8, hi: Option<u8>, sink: Sink| G::Rep(Rep { item: b(item), sep: None, leading: false, trailing: false, lo, hi, sink, cfg: false, ctxb: 0 });
     let mut out = vec![
         G::Or(b(G::Then(b(j("ab")), b(j("c")))), b(rep(G::Any, 0, None, Sink::Vec))),
         G::Then(b(G::OrNot(b(G::Then(b(G::Any), b(j("b")))))), b(rep(G::Select("abc".into()), 0, None, Sink::Vec))),
